@@ -400,3 +400,65 @@ Example C18_use_cycle_example :
   resolve [(1%N, [Leaf 7%N; Ref 2%N]); (2%N, [Ref 1%N])] [Ref 1%N] = Ok None /\
   draw_refs [(1%N, [Leaf 7%N; Ref 2%N]); (2%N, [Ref 1%N; Leaf 8%N])] [Ref 1%N; Ref 9%N] = Ok (Some [7%N; 8%N]).
 Proof. split; reflexivity. Qed.
+
+(* ------------------------------------------------------------------ *)
+(* instances of <use> (Geom/UseGraph.v draw_use / draw_uses): every <use> is
+   drawn from the definition as written.  What the k-th <use> of a document
+   contributes is a function of the definitions and of that <use> alone, and
+   the drawing of a document is the concatenation of its instances' drawings:
+   an instance does not depend on the instances before or after it, of the
+   same id or not (every arithmetic instance) *)
+Theorem C18_use_instances_independent :
+  forall (ar : arith) (rc : Q -> Q) (cv : Z -> Z -> option Q) (ds : list udef),
+  (forall us k u, nth_error us k = Some u ->
+     nth_error (map (draw_use ar rc cv ds) us) k = Some (draw_use ar rc cv ds u)) /\
+  (forall pre u post lpre lu lpost,
+     draw_uses ar rc cv ds pre = Ok (Some lpre) ->
+     draw_use ar rc cv ds u = Ok (Some lu) ->
+     draw_uses ar rc cv ds post = Ok (Some lpost) ->
+     draw_uses ar rc cv ds (pre ++ u :: post) = Ok (Some (lpre ++ lu ++ lpost))).
+Proof.
+  exact (fun ar rc cv ds => conj (use_instance_at ar rc cv ds) (use_after_prefix ar rc cv ds)).
+Qed.
+Print Assumptions C18_use_instances_independent.
+
+(* the viewport of an instance of an <svg> / <symbol>: width and height of the
+   <use> when it gives both, else the element's own (a <use> without them draws
+   as one that repeats the element's own); the clip rectangle and the viewBox /
+   preserveAspectRatio transform (C18_viewbox_spec) are those of that viewport;
+   width / height of a <use> of another element have no effect *)
+Theorem C18_use_viewport_size :
+  forall (ar : arith) (rc : Q -> Q) (cv : Z -> Z -> option Q) (ds : list udef) id x y st sw,
+  (forall tx ty w h vb p clip content,
+     lookup_def ds id = Some (TView tx ty w h vb p clip content) ->
+     draw_use ar rc cv ds (UseI id x y NoSize st sw) = draw_use ar rc cv ds (UseI id x y (Size w h) st sw) /\
+     forall sz c, content_ops ar rc cv content = Ok (Some c) ->
+       draw_use ar rc cv ds (UseI id x y sz st sw) =
+       Ok (Some (stroke_ops st (cascaded_width NoQ sw) ++ UTrans 1 0 0 1 x y ::
+                 stroke_ops st (cascaded_width NoQ sw) ++
+                 view_frame ar tx ty (fst (view_size w h sz)) (snd (view_size w h sz)) vb p clip ++ c))) /\
+  (forall t sz, lookup_def ds id = Some t ->
+     (forall tx ty w h vb p clip content, t <> TView tx ty w h vb p clip content) ->
+     draw_use ar rc cv ds (UseI id x y sz st sw) = draw_use ar rc cv ds (UseI id x y NoSize st sw)).
+Proof.
+  intros ar rc cv ds id x y st sw. split.
+  - intros tx ty w h vb p clip content H. split.
+    + exact (use_size_default ar rc cv id x y st sw ds tx ty w h vb p clip content H).
+    + intros sz c Hc. exact (use_view_frame ar rc cv id x y sz st sw ds tx ty w h vb p clip content c H Hc).
+  - intros t sz H Hn. exact (use_size_ignored ar rc cv id x y sz st sw ds t H Hn).
+Qed.
+Print Assumptions C18_use_viewport_size.
+
+(* two <use> of one <symbol>, the first with width / height, the second
+   without: the second is drawn in the symbol's own 30 x 30 viewport (2.0 is
+   the fraction 20 # 10: exact arithmetic does not reduce) *)
+Example C18_use_twice_example :
+  draw_uses exactQ id cv_exact
+    [UDef 1 (TView 0 0 30 30 (SomeVb 0 0 10 10) {| xpos := AMin; ypos := AMin; par_none := false; par_slice := false |} true
+                   [ShLine 0 0 10 10])]
+    [UseI 1 50 0 (Size 40 20) false NoQ; UseI 1 0 0 NoSize false NoQ]
+  = Ok (Some [UTrans 1 0 0 1 50 0; UTrans 1 0 0 1 0 0; UShape (SRect 0 0 40 20); UTrans 2.0 0 0 2.0 0.0 0.0;
+              UShape (SOp true (OMove 0 0)); UShape (SOp true (OLine 10 10));
+              UTrans 1 0 0 1 0 0; UTrans 1 0 0 1 0 0; UShape (SRect 0 0 30 30); UTrans 3.0 0 0 3.0 0.0 0.0;
+              UShape (SOp true (OMove 0 0)); UShape (SOp true (OLine 10 10))]).
+Proof. vm_compute. reflexivity. Qed.
